@@ -112,7 +112,7 @@ def all_jobs():
     MEMB_REPLACE = [VCALL_VALUE, V_MOVE_ASSIGN, V_CLEAR, CTX_ALLOCATE, V_SWAP_RV_, V_CLONE, V_CTOR_LIT, V_MOVE_CTOR]
     MEMB_CUT = MEMB_REPLACE + [RTE_CTOR, RTE_CTOR_S, '_ZNK4bloc5Value8toStringB5cxx11Ev', '_ZNK4bloc5Value8typeNameB5cxx11Ev']
     COLL_ERASE = '_ZN4bloc10Collection5eraseEN9__gnu_cxx17__normal_iteratorIPKNS_5ValueESt6vectorIS3_SaIS3_EEEE'
-    for n, c, props in (('member_put', 'MemberPUTExpression', ['C01', 'C05', 'C09', 'C10']), ('member_delete', 'MemberDELETEExpression', ['C01', 'C05', 'C09']), ('member_at', 'MemberATExpression', ['C01', 'C02', 'C05', 'C09', 'C10'])):
+    for n, c, props in (('member_put', 'MemberPUTExpression', ['C01', 'C02', 'C05', 'C09', 'C10']), ('member_delete', 'MemberDELETEExpression', ['C01', 'C02', 'C05', 'C09']), ('member_at', 'MemberATExpression', ['C01', 'C02', 'C05', 'C09', 'C10'])):
         mg = '_ZNK4bloc%d%s5valueERNS_7ContextE' % (len(c), c)
         J.append(dict(id=n, src='blocc/member/%s.cpp' % n, contract='%s.c' % n, enforce=mg, roots=[mg], replace=list(MEMB_REPLACE), cut=list(MEMB_CUT) + [COLL_ERASE],
                       props=props, pretty='bloc::%s::value' % c, canaries=['normal', 'exceptional'], unwind=2,
@@ -125,13 +125,13 @@ def all_jobs():
                   structs=DEFAULT_STRUCTS + [STD_STRING, VEC_CHAR, 'bloc::Collection', 'bloc::Tuple', 'bloc::Context', 'bloc::MemberSETExpression']))
     mg = '_ZNK4bloc22MemberINSERTExpression5valueERNS_7ContextE'
     J.append(dict(id='member_insert', src='blocc/member/member_insert.cpp', contract='member_insert.c', enforce=mg, roots=[mg], replace=list(MEMB_REPLACE), cut=list(MEMB_CUT),
-                  props=['C01', 'C05', 'C09', 'C10'], pretty='bloc::MemberINSERTExpression::value', canaries=['normal', 'exceptional'], unwind=2,
+                  props=['C01', 'C02', 'C05', 'C09', 'C10'], pretty='bloc::MemberINSERTExpression::value', canaries=['normal', 'exceptional'], unwind=2,
                   unwind_why='Value::deref_value() pointer chase; the element loops of table-into-table insertion are outside the contract domain (operand assumption)',
                   structs=DEFAULT_STRUCTS + [STD_STRING, VEC_CHAR, 'bloc::Collection', 'bloc::Tuple', 'bloc::Context']))
     mg = '_ZNK4bloc22MemberCONCATExpression5valueERNS_7ContextE'
     J.append(dict(id='member_concat', src='blocc/member/member_concat.cpp', contract='member_concat.c', enforce=mg, roots=[mg],
                   replace=list(MEMB_REPLACE) + ['_ZN4bloc7Context9getSymbolEj', '_ZN4bloc7Context13storeVariableEjONS_5ValueE'], cut=list(MEMB_CUT) + ['_ZN4bloc7Context9getSymbolEj', '_ZN4bloc7Context13storeVariableEjONS_5ValueE'],
-                  props=['C01', 'C05', 'C09'], pretty='bloc::MemberCONCATExpression::value', canaries=['normal', 'exceptional'], unwind=2,
+                  props=['C01', 'C02', 'C05', 'C09'], pretty='bloc::MemberCONCATExpression::value', canaries=['normal', 'exceptional'], unwind=2,
                   unwind_why='Value::deref_value() pointer chase; the element loops of table-to-table concatenation are outside the contract domain (operand assumption)',
                   structs=DEFAULT_STRUCTS + [STD_STRING, VEC_CHAR, 'bloc::Collection', 'bloc::Tuple', 'bloc::Context', 'bloc::Symbol']))
     HASHFN = '_ZN4blocL17bloc_builtin_hashEjPKcj'
@@ -214,6 +214,11 @@ def all_jobs():
                   props=['C16'], pretty='bloc::ComplexCTORExpression::parse', canaries=['normal', 'exceptional'], unwind=8, bounded_inputs=True,
                   unwind_why='argument list of at most 2 expressions (stub of Parser::pop yields at most 5 tokens), one candidate constructor',
                   structs=DEFAULT_STRUCTS + [STD_STRING, 'bloc::Context', 'bloc::ComplexCTORExpression', 'bloc::PLUGGED_MODULE', 'bloc::Token', 'bloc::ParseError', 'bloc::PluginManager', 'PLUGIN_CTOR', 'PLUGIN_INTERFACE', 'PLUGIN_TYPE']))
+    mg = '_ZNK4bloc16INCLUDEStatement4doitERNS_7ContextE'
+    J.append(dict(id='include_doit', src='blocc/statement_include.cpp', contract='include_doit.c', enforce=mg, roots=[mg], replace=[],
+                  cut=['_ZN4bloc10Executable3runERNS_7ContextERKNSt7__cxx114listIPKNS_9StatementESaIS7_EEE', '_ZN4bloc10Executable3runEv', RTE_CTOR, RTE_CTOR_S],
+                  props=['C01', 'C07', 'C14'], pretty='bloc::INCLUDEStatement::doit', canaries=['normal', 'exceptional'],
+                  structs=DEFAULT_STRUCTS + [STD_STRING, 'bloc::Context', 'bloc::INCLUDEStatement', 'bloc::Executable', 'bloc::Statement']))
     mg = '_ZN4bloc16INCLUDEStatement10loadSourceERNS_6ParserERNS_7ContextE'
     J.append(dict(id='include_loadSource', src='blocc/statement_include.cpp', contract='include_load.c', enforce=mg, roots=[mg], replace=[VCALL_VALUE], cut=[VCALL_VALUE, RTE_CTOR, RTE_CTOR_S],
                   props=['C16'], pretty='bloc::INCLUDEStatement::loadSource', canaries=['exceptional'], unwind=3,
@@ -276,12 +281,17 @@ def all_jobs():
                   structs=DEFAULT_STRUCTS + ['bloc::FORALLStatement', 'bloc::FORALLStatement::RT', 'bloc::Context', 'bloc::Symbol', 'bloc::Context::MemorySlot', 'bloc::VariableExpression', 'bloc::Expression']))
     EXEC_CTORS = ['_ZN4bloc10ExecutableC1ERNS_7ContextERKNSt7__cxx114listIPKNS_9StatementESaIS7_EEE', '_ZN4bloc10ExecutableC2ERNS_7ContextERKNSt7__cxx114listIPKNS_9StatementESaIS7_EEE']
     for jid, mg, df, src, cls in (('stmt_forall_parse_clause', '_ZN4bloc15FORALLStatement12parse_clauseERNS_6ParserERNS_7ContextEPS0_', 'JOB_FORALL', 'blocc/statement_forall.cpp', 'FORALLStatement'),
-                                  ('stmt_for_parse_clause', '_ZN4bloc12FORStatement12parse_clauseERNS_6ParserERNS_7ContextEPS0_', 'JOB_FOR', 'blocc/statement_for.cpp', 'FORStatement')):
+                                  ('stmt_for_parse_clause', '_ZN4bloc12FORStatement12parse_clauseERNS_6ParserERNS_7ContextEPS0_', 'JOB_FOR', 'blocc/statement_for.cpp', 'FORStatement'),
+                                  ('stmt_if_parse_clause', '_ZN4bloc11IFStatement12parse_clauseERNS_6ParserERNS_7ContextEPS0_', 'JOB_IF', 'blocc/statement_if.cpp', 'IFStatement'),
+                                  ('stmt_while_parse_clause', '_ZN4bloc14WHILEStatement12parse_clauseERNS_6ParserERNS_7ContextEPNS_9StatementE', 'JOB_WHILE', 'blocc/statement_while.cpp', 'WHILEStatement')):
         J.append(dict(id=jid, src=src, contract='stmt_forall_parse.c', enforce=mg, roots=[mg], replace=[], defines=[df],
                       cut=['_ZN4bloc7Context9getSymbolEj', '_ZN4bloc7Context9execBeginEPKNS_9StatementE', '_ZN4bloc7Context7execEndEv'] + EXEC_CTORS,
-                      props=['C01', 'C11'], pretty='bloc::%s::parse_clause' % cls, canaries=['normal', 'exceptional'], unwind=12, bounded_inputs=True,
+                      props=['C01', 'C11'] + (['C09'] if df == 'JOB_FORALL' else []), pretty='bloc::%s::parse_clause' % cls, canaries=['normal', 'exceptional'], unwind=12, bounded_inputs=True,
                       unwind_why='body of at most 2 statements (stub of Parser::pop yields at most 5 tokens)',
                       structs=DEFAULT_STRUCTS + [STD_STRING, 'bloc::' + cls, 'bloc::Context', 'bloc::Symbol', 'bloc::VariableExpression', 'bloc::Expression', 'bloc::Statement', 'bloc::Executable', 'bloc::Parser', 'bloc::ParseError', 'bloc::Token']))
+    J.append(dict(id='tokenizer_buf', src='blocc/lex._tokenizer.c', contract='tokenizer_buf.c', enforce='tokenizer_buf', roots=['tokenizer_buf'], replace=[], cut=[], c_source=True,
+                  props=['C01', 'C13'], pretty='tokenizer_buf (tokenizer.lex)', canaries=['normal'], unwind=8, bounded_inputs=True,
+                  unwind_why='chunks of at most 3 bytes from the reader stub (flex copies them byte by byte)', enums=[], structs=[]))
     # ---- C13: stream readers ----
     mg = '_ZN4bloc12StringReader4readEPNS_6ParserEPci'
     J.append(dict(id='reader_string', src='blocc/string_reader.cpp', contract='reader_string.c', enforce=mg, roots=[mg], replace=[], cut=[],
@@ -311,7 +321,7 @@ def all_jobs():
                   structs=DEFAULT_STRUCTS + [STD_STRING, 'bloc::Context', 'bloc::Context::MemorySlot', 'bloc::Symbol']))
     mg = '_ZN4bloc7Context10MemorySlotC2ERKS1_'
     J.append(dict(id='ctx_memoryslot_copy', src='blocc/context.cpp', contract='ctx_clone.c', enforce=mg, roots=[mg], replace=[V_CLONE, V_MOVE_CTOR, V_CLEAR], cut=[V_CLONE, V_MOVE_CTOR, V_CLEAR],
-                  props=['C01', 'C14'], pretty='bloc::Context::MemorySlot::MemorySlot(const MemorySlot&)', canaries=['normal'], defines=['JOB_SLOT'],
+                  props=['C01', 'C05', 'C14'], pretty='bloc::Context::MemorySlot::MemorySlot(const MemorySlot&)', canaries=['normal'], defines=['JOB_SLOT'],
                   structs=DEFAULT_STRUCTS + [STD_STRING, 'bloc::Context', 'bloc::Context::MemorySlot', 'bloc::Symbol']))
     mg = '_ZN4bloc5Value6_clearEv'
     J.append(dict(id='value_clear', src='blocc/value.cpp', contract='value_clear.c', enforce=mg, roots=[mg], replace=[], cut=[],
